@@ -110,6 +110,10 @@ class CaseRunner:
 
         try:
             h = walk.build_harness(case["source"], case.get("modes"))
+        except walk.SourceRejected as e:
+            if record:
+                rep.count(f"source-rejected({e.owner})")
+            return failed
         except Failure as f:
             fail(f, 0)
             return failed
